@@ -8,6 +8,8 @@
 package main
 
 import (
+	"bytes"
+	"encoding/json"
 	"fmt"
 	"io"
 	"math/rand"
@@ -23,6 +25,7 @@ import (
 
 	"github.com/pyroscope-io/pyroscope/pkg/config"
 	"github.com/pyroscope-io/pyroscope/pkg/storage"
+	"github.com/pyroscope-io/pyroscope/pkg/storage/dict"
 	"github.com/pyroscope-io/pyroscope/pkg/storage/dimension"
 	"github.com/pyroscope-io/pyroscope/pkg/storage/tree"
 	"verifharness/lib"
@@ -751,6 +754,82 @@ func runGateWriteBackInPut(in Input) lib.Result {
 	return res
 }
 
+// Tree / Dict API level: several goroutines traverse ONE tree (SerializeNoDict, FlamebearerStruct) and ONE dictionary
+// (Bytes) at the same time, holding only read locks. The shapes are those in which the old work-list idiom
+// `append(node.children, pending...)` wrote in place: a frame with 3, 5, 6 or 7 children (capacity 4 / 8) followed by
+// at most (capacity - children) pending siblings. Guarded by the race detector (/repo b9a3d3a); the outputs of the
+// concurrent traversals are also compared with a sequential one.
+func runTreeReaders(in Input) lib.Result {
+	r := rand.New(rand.NewSource(in.Seed))
+	var mismatches int64
+	rounds := 0
+	for _, nch := range []int{3, 5, 6, 7} {
+		spare := 4 - nch
+		if nch > 4 {
+			spare = 8 - nch
+		}
+		for pend := 1; pend <= spare; pend++ {
+			rounds++
+			t := tree.New()
+			d := dict.New()
+			lead := r.Intn(3) // frames sorting before the wide one (already visited when it is reached)
+			for i := 0; i < lead; i++ {
+				t.Insert([]byte(fmt.Sprintf("A%d", i)), uint64(r.Intn(5)+1))
+				d.Put([]byte(fmt.Sprintf("A%d", i)))
+			}
+			for i := 0; i < nch; i++ {
+				t.Insert([]byte(fmt.Sprintf("a;x%d", i)), uint64(r.Intn(5)+1))
+				d.Put([]byte(fmt.Sprintf("a%c", 'p'+i)))
+			}
+			for i := 0; i < pend; i++ {
+				t.Insert([]byte(fmt.Sprintf("b%d", i)), uint64(r.Intn(5)+1))
+				d.Put([]byte(fmt.Sprintf("%c", 'b'+i)))
+			}
+			var base bytes.Buffer
+			t.SerializeNoDict(1024, &base)
+			baseFlame, _ := json.Marshal(t.FlamebearerStruct(1024))
+			baseDict, _ := d.Bytes()
+			var goFlag int32
+			var wg sync.WaitGroup
+			for gi := 0; gi < 4+2; gi++ {
+				wg.Add(1)
+				go func(gi int) {
+					defer wg.Done()
+					for atomic.LoadInt32(&goFlag) == 0 {
+					}
+					for k := 0; k < 30; k++ {
+						switch {
+						case gi >= 4:
+							b, _ := d.Bytes()
+							if !bytes.Equal(b, baseDict) {
+								atomic.AddInt64(&mismatches, 1)
+							}
+						case gi%2 == 0:
+							var buf bytes.Buffer
+							t.SerializeNoDict(1024, &buf)
+							if !bytes.Equal(buf.Bytes(), base.Bytes()) {
+								atomic.AddInt64(&mismatches, 1)
+							}
+						default:
+							f, _ := json.Marshal(t.FlamebearerStruct(1024))
+							if !bytes.Equal(f, baseFlame) {
+								atomic.AddInt64(&mismatches, 1)
+							}
+						}
+					}
+				}(gi)
+			}
+			atomic.StoreInt32(&goFlag, 1)
+			wg.Wait()
+		}
+	}
+	coq := "{| k_stream := " + lib.Str("tree-readers") + "; k_writers := 0%nat; k_per_writer := 0%nat; k_same_slot := false; k_cold := false; k_ingests := []; k_reads := []" +
+		"; k_final := {| rd_start := 0%Z; rd_end := 0%Z; rd_uniq := []; rd_common := 0; rd_other := " + lib.N(uint64(mismatches)) + "; rd_timeline := []; rd_nil := false |}" +
+		"; k_own_totals := []; k_put_error := false |}"
+	return lib.Result{Coq: coq, NonTrivial: true, Feat: map[string]interface{}{"stream": "tree-readers"},
+		Obs: map[string]interface{}{"shapes": rounds, "mismatching_outputs": mismatches}}
+}
+
 func run(in Input) lib.Result {
 	if in.Procs > 0 {
 		prev := runtime.GOMAXPROCS(in.Procs)
@@ -771,6 +850,9 @@ func run(in Input) lib.Result {
 	if in.Stream == "dims" {
 		return runDims(in)
 	}
+	if in.Stream == "tree-readers" {
+		return runTreeReaders(in)
+	}
 	if in.Stream == "gate-writeback-in-put" {
 		return runGateWriteBackInPut(in)
 	}
@@ -790,6 +872,10 @@ func gen(r *rand.Rand, idx int, tier string) Input {
 	in := Input{Stream: "main", Writers: lib.Range(r, 1, 8), Readers: lib.Range(r, 1, 8), PerWriter: lib.Range(r, 2, 6),
 		Labels: lib.Chance(r, 0.5), ColdStart: lib.Chance(r, 0.5), SameSlot: lib.Chance(r, 0.3),
 		Procs: lib.Pick(r, []int{2, 4, 8, 16}), Seed: r.Int63()}
+	if idx%14 == 7 {
+		in.Stream = "tree-readers"
+		return in
+	}
 	switch idx % 7 {
 	case 4:
 		in.Stream = "evict"
